@@ -40,6 +40,10 @@ func (o *Obl) Family() string {
 		if i := strings.LastIndex(name, "@r"); i > 0 {
 			name = name[:i]
 		}
+	case "at-call":
+		if i := strings.LastIndex(name, "@"); i > 0 && strings.Contains(name[i:], ":") {
+			name = name[:i]
+		}
 	case "inv-preserve", "decreases", "body-ensures":
 		if i := strings.LastIndex(name, "@b"); i > 0 {
 			name = name[:i]
@@ -140,6 +144,42 @@ func cmdCheck(args []string) int {
 		opts.All = true
 	}
 	run, err := RunProperty(cfg, *root, opts)
+	if err == nil {
+		for _, part := range cfg.Parts {
+			pc, perr := loadConfig(filepath.Join("/verif/props", part+".json"))
+			if perr != nil {
+				err = perr
+				break
+			}
+			pc.ID = cfg.ID
+			if pc.TimeoutQuick > 0 && !*thorough {
+				opts.TimeoutS = pc.TimeoutQuick
+			}
+			pr, perr := RunProperty(pc, *root, opts)
+			if perr != nil {
+				err = perr
+				break
+			}
+			defer os.RemoveAll(pr.Dir)
+			run.Funcs = append(run.Funcs, pr.Funcs...)
+			run.Lemmas = append(run.Lemmas, pr.Lemmas...)
+			run.Total += pr.Total
+			run.Discharged += pr.Discharged
+			run.Trusted = append(run.Trusted, pr.Trusted...)
+			run.Uncovered = append(run.Uncovered, pr.Uncovered...)
+			run.Eng.contractFiles = append(run.Eng.contractFiles, pr.Eng.contractFiles...)
+			for k, v := range pr.SolverWins {
+				run.SolverWins[k] += v
+			}
+			for k, v := range pr.SolverTime {
+				run.SolverTime[k] += v
+			}
+			cfg.Syntactic = append(cfg.Syntactic, pc.Syntactic...)
+			for _, k := range pc.Inline {
+				cfg.Inline = append(cfg.Inline, k)
+			}
+		}
+	}
 	if err != nil {
 		// the tree no longer loads/compiles under the verifier: undecided => fail closed
 		fmt.Println("ENGINE ERROR:", err)
@@ -421,6 +461,7 @@ func writeEvidence(cfg *PropConfig, run *PropRun, tier string, seed int, wall fl
 			"syntactic_obligations": synTotal, "syntactic_failed": synFail,
 			"solver_wins": run.SolverWins, "solver_time_s": run.SolverTime, "slowest_obligation_s": slowest,
 			"known_findings_reported": kf,
+			"direct_primitive_callers_without_contract": run.Uncovered,
 			"contract_files": run.Eng.contractFiles,
 			"mode": cfg.Mode,
 			"samples": samples,
